@@ -38,6 +38,8 @@ def check(run):
                         "in all covariant classes' bases); a new guard on one of these steps is reported - a behaviour-preserving guard would need its own argument",
                         "collision-freedom of the slot allocation (assign_tree_slots / assign_lattice_slots: no two (method, parameter) pairs applicable to a class share a "
                         "slot) and sufficiency of used_slots for every lattice are values of a graph algorithm over run-time data: NOT decided"]
+    # slots are reserved in every base of a class: the base lists the reservation walks come from the compile-time map
+    crules.basemap_rules(run, "C04-bases")
     from .. import crules as _cr
     _cr.facet_rules(run, "C04-facets")
     return run.finish(level="other", explanation="AST affine rules: the index written by build_dispatch_tables, the pointer installed by install_gv and decode, the lattice "
